@@ -60,7 +60,8 @@ def exception_id():
 def licenseref():
     return st.builds(
         lambda a, b: "LicenseRef-" + a + b,
-        st.sampled_from(["custom", "Proprietary", "ACME", "x", "my.own", "a-b", "V1.0", "9"]),
+        # (with names that differ in letter case only: LicenseRef- identifiers are case-sensitive, these are different licences)
+        st.sampled_from(["custom", "Custom", "Proprietary", "ACME", "acme", "x", "X", "my.own", "a-b", "V1.0", "v1.0", "9"]),
         st.sampled_from(["", "", "-1", ".2", "-final"]),
     )
 
@@ -98,8 +99,8 @@ INVALID_EXPRESSIONS = ["MIT AND", "OR MIT", "MIT AND OR ISC", "(MIT", "MIT)", "M
 
 # ---- holders ---------------------------------------------------------------
 _FIRST = ["Jane", "John", "Zoë", "Łukasz", "Ng", "María-José", "O'Brien", "李", "Müller", "J. R. R.", "Анна", "Sébastien", "Nguyễn Văn", "Jean  Luc"]
-_LAST = ["Doe", "Smith", "van der Berg", "Tolkien", "Ó Súilleabháin", "Иванова", "山田", "d'Arc", "Smith-Jones", "McDonald", "Roland", "Marc", "Team C#", "Yahoo!", "Vitamin c", "Klasse C", "Team dnl"]
-_ORGS = ["Free Software Foundation Europe e.V.", "ACME, Inc.", "Foo & Bar GmbH", "Example Corp. (UK) Ltd", "The Project Authors", "Rivos Inc.", "Überwald AG", "株式会社テスト", "A-B C.D. s.r.o.", "contributors to X", "The Copyright Clearance Center", "Jane Doe, Copyright Officer", "A © B Holding"]
+_LAST = ["Doe", "DOE", "Smith", "van der Berg", "Tolkien", "Ó Súilleabháin", "Иванова", "山田", "d'Arc", "Smith-Jones", "McDonald", "Roland", "Marc", "Team C#", "Yahoo!", "Vitamin c", "Klasse C", "Team dnl"]
+_ORGS = ["Free Software Foundation Europe e.V.", "ACME, Inc.", "Acme, Inc.", "Foo & Bar GmbH", "Example Corp. (UK) Ltd", "The Project Authors", "Rivos Inc.", "Überwald AG", "株式会社テスト", "A-B C.D. s.r.o.", "contributors to X", "The Copyright Clearance Center", "Jane Doe, Copyright Officer", "A © B Holding"]
 _SUFFIX = ["", "", "", " <jane@example.org>", " <https://example.org>", " <https://fsfe.org/a?b=c&d=e>", " and others", " (maintainer)", ", 2nd"]
 
 _TRIGGER = re.compile(r"Copyright|©|SPDX-FileCopyrightText|SPDX-SnippetCopyrightText|SPDX-License-Identifier|SPDX-FileContributor|REUSE-Ignore|\([Cc]\)")
